@@ -44,10 +44,16 @@ pub struct ChunkReader {
     schedule: Vec<usize>,
     next_chunk: usize,
     fail_at: Option<usize>,
+    /// transient fault: only the first call at the offset fails
+    one_shot: bool,
     pub error_returned: Arc<AtomicBool>,
 }
 
 impl ChunkReader {
+    pub fn transient(mut self) -> Self {
+        self.one_shot = true;
+        self
+    }
     pub fn new(data: Arc<Vec<u8>>, schedule: Vec<usize>, fail_at: Option<usize>) -> Self {
         Self {
             data,
@@ -56,6 +62,7 @@ impl ChunkReader {
             schedule,
             next_chunk: 0,
             fail_at,
+            one_shot: false,
             error_returned: Arc::new(AtomicBool::new(false)),
         }
     }
@@ -77,7 +84,7 @@ impl BufRead for ChunkReader {
     fn fill_buf(&mut self) -> io::Result<&[u8]> {
         self.advance_chunk();
         let mut end = self.chunk_end;
-        if let Some(o) = self.fail_at {
+        if let Some(o) = self.fail_at.filter(|_| !(self.one_shot && self.error_returned.load(Ordering::SeqCst))) {
             if self.pos == o || (o >= self.data.len() && self.pos >= self.data.len()) {
                 self.error_returned.store(true, Ordering::SeqCst);
                 return Err(io::Error::new(io::ErrorKind::Other, "injected read fault"));
@@ -190,19 +197,25 @@ fn eval_npy(_ctx: &Ctx, case: &NpyChunkCase) -> Verdict {
     let mut faults = 0u64;
     let mut surfaced = 0u64;
     for o in 0..=len {
-        let r = ChunkReader::new(data.clone(), schedule(1 + (o * 7) % 23, &case.later, false), Some(o));
-        let flag = r.error_returned.clone();
-        let got = read_npy_from(r)?;
-        faults += 1;
-        if flag.load(Ordering::SeqCst) {
-            surfaced += 1;
-            if let Ok((shape, values)) = &got {
-                fail!(
-                    "npy ({:?}, shape {:?}, {len} bytes): the reader failed at byte offset {o} but read_npy returned Ok(shape {shape:?}, {} values)",
-                    case.file.source,
-                    case.file.shape,
-                    values.len()
-                );
+        for transient in [false, true] {
+            let mut r = ChunkReader::new(data.clone(), schedule(1 + (o * 7) % 23, &case.later, false), Some(o));
+            if transient {
+                r = r.transient();
+            }
+            let flag = r.error_returned.clone();
+            let got = read_npy_from(r)?;
+            faults += 1;
+            if flag.load(Ordering::SeqCst) {
+                surfaced += 1;
+                if let Ok((shape, values)) = &got {
+                    fail!(
+                        "npy ({:?}, shape {:?}, {len} bytes): the reader failed {} at byte offset {o} but read_npy returned Ok(shape {shape:?}, {} values)",
+                        case.file.source,
+                        case.file.shape,
+                        if transient { "once (transient fault)" } else { "for good" },
+                        values.len()
+                    );
+                }
             }
         }
     }
@@ -389,18 +402,24 @@ fn eval_cs(ctx: &Ctx, case: &CsChunkCase) -> Verdict {
     let mut surfaced = 0u64;
     for &o in &offsets {
         // first chunk large enough that detection is not the issue under test here
-        let r = ChunkReader::new(data.clone(), schedule(window.max(64) + (o % 5), &case.later, false), Some(o));
-        let flag = r.error_returned.clone();
-        let got = create_in_process(&case.cs, &case.map, r, case.threads)?;
-        if flag.load(Ordering::SeqCst) {
-            surfaced += 1;
-            if let CreateResult::Spectrum(shape, _, sites) = &got {
-                fail!(
-                    "{} call set ({len} bytes, {} records, {} threads): the reader failed at byte offset {o} but creation succeeded with shape {shape:?} after {sites} sites",
-                    case.container.label(),
-                    case.cs.records.len(),
-                    case.threads
-                );
+        for transient in [false, true] {
+            let mut r = ChunkReader::new(data.clone(), schedule(window.max(64) + (o % 5), &case.later, false), Some(o));
+            if transient {
+                r = r.transient();
+            }
+            let flag = r.error_returned.clone();
+            let got = create_in_process(&case.cs, &case.map, r, case.threads)?;
+            if flag.load(Ordering::SeqCst) {
+                surfaced += 1;
+                if let CreateResult::Spectrum(shape, _, sites) = &got {
+                    fail!(
+                        "{} call set ({len} bytes, {} records, {} threads): the reader failed {} at byte offset {o} but creation succeeded with shape {shape:?} after {sites} sites",
+                        case.container.label(),
+                        case.cs.records.len(),
+                        case.threads,
+                        if transient { "once (transient fault)" } else { "for good" }
+                    );
+                }
             }
         }
     }
@@ -433,6 +452,8 @@ struct ShortWriter {
     calls: usize,
     fail_after: Option<usize>,
     failed: bool,
+    /// the fault is transient: exactly one call fails, later calls succeed again
+    one_shot: bool,
 }
 
 impl Write for ShortWriter {
@@ -443,11 +464,13 @@ impl Write for ShortWriter {
         let mut n = self.per_call[self.calls % self.per_call.len()].max(1).min(buf.len());
         self.calls += 1;
         if let Some(limit) = self.fail_after {
-            if self.out.len() >= limit {
+            if self.out.len() >= limit && !(self.one_shot && self.failed) {
                 self.failed = true;
                 return Err(io::Error::new(io::ErrorKind::Other, "injected write fault"));
             }
-            n = n.min(limit - self.out.len());
+            if self.out.len() < limit {
+                n = n.min(limit - self.out.len());
+            }
         }
         self.out.extend_from_slice(&buf[..n]);
         Ok(n)
@@ -497,6 +520,7 @@ fn eval_write(_ctx: &Ctx, case: &WriteCase) -> Verdict {
         calls: 0,
         fail_after: None,
         failed: false,
+        one_shot: false,
     };
     match guard(|| builder().write(&mut sw, &scs)).map_err(Failure::new)? {
         Ok(()) => ensure!(sw.out == full, "a writer accepting {:?} bytes per call received {} bytes, a full writer {} bytes ({format:?}, shape {:?}); first difference at {:?}", case.per_call, sw.out.len(), full.len(), case.shape, sw.out.iter().zip(&full).position(|(a, b)| a != b)),
@@ -520,19 +544,29 @@ fn eval_write(_ctx: &Ctx, case: &WriteCase) -> Verdict {
         v
     };
     for o in offsets {
-        let mut sw = ShortWriter {
-            out: Vec::new(),
-            per_call: case.per_call.clone(),
-            calls: 0,
-            fail_after: Some(o),
-            failed: false,
-        };
-        let r = guard(|| builder().write(&mut sw, &scs)).map_err(Failure::new)?;
-        if sw.failed {
-            surfaced += 1;
-            ensure!(r.is_err(), "the writer failed after {o} of {} bytes but write returned Ok ({format:?}, shape {:?})", full.len(), case.shape);
-        } else {
-            fail!("harness bug: the fault at offset {o} of {} was never triggered", full.len());
+        for one_shot in [false, true] {
+            let mut sw = ShortWriter {
+                out: Vec::new(),
+                per_call: case.per_call.clone(),
+                calls: 0,
+                fail_after: Some(o),
+                failed: false,
+                one_shot,
+            };
+            let r = guard(|| builder().write(&mut sw, &scs)).map_err(Failure::new)?;
+            if sw.failed {
+                surfaced += 1;
+                ensure!(
+                    r.is_err(),
+                    "the writer failed {} after {o} of {} bytes but write returned Ok ({format:?}, shape {:?}; {} bytes reached the writer)",
+                    if one_shot { "once (transient fault)" } else { "for good" },
+                    full.len(),
+                    case.shape,
+                    sw.out.len()
+                );
+            } else {
+                fail!("harness bug: the fault at offset {o} of {} was never triggered", full.len());
+            }
         }
     }
     let mut pass = Pass::new().nontrivial(true).label(if case.npy { "npy" } else { "text" });
@@ -753,21 +787,21 @@ pub fn check(ctx: &Ctx) -> Check {
     let parts: Vec<Box<dyn Part>> = vec![
         Box::new(RandomPart {
             name: "npy-chunks-and-faults",
-            rule: "npy files (all dtypes/versions, both writers, ~20% truncated so that rejection is compared too) read through a BufRead whose fill_buf follows a schedule: first chunk length enumerated 1..min(len,300), later chunks generated, plus 'one byte at a time'; result must equal reading from one slice. Fault: the reader returns an error instead of byte o, for EVERY offset 0..=len: if the error was ever returned, read_npy must be Err; non-trivial = first chunks shorter than 12 bytes and faults that reached the consumer (always)",
+            rule: "npy files (all dtypes/versions, both writers, ~20% truncated so that rejection is compared too) read through a BufRead whose fill_buf follows a schedule: first chunk length enumerated 1..min(len,300), later chunks generated, plus 'one byte at a time'; result must equal reading from one slice. Fault: the reader returns an error instead of byte o (persistently, or once only), for EVERY offset 0..=len: if the error was ever returned, read_npy must be Err; non-trivial = first chunks shorter than 12 bytes and faults that reached the consumer (always)",
             cases: ctx.tier.pick(100, 1500),
             strategy: Box::new(|| npy_case_strategy().boxed()),
             eval: Box::new(eval_npy),
         }),
         Box::new(RandomPart {
             name: "callset-chunks-and-faults",
-            rule: "call sets in all four containers (generated BGZF layouts) through the hooked genotype::reader::Builder::build_from_bufread (format/compression detection included) and the site-reader loop, threads 1/2/4: first chunk length enumerated 1..min(len,300) (+ one-byte-at-a-time for the shortest), result (spectrum or error) must equal the one-slice result; read fault at every offset < 300 plus 24 sampled offsets, the last byte and end-of-data: if the error was returned, creation must fail; non-trivial = a first chunk shorter than the container's detection window, or a fault that reached the consumer",
+            rule: "call sets in all four containers (generated BGZF layouts) through the hooked genotype::reader::Builder::build_from_bufread (format/compression detection included) and the site-reader loop, threads 1/2/4: first chunk length enumerated 1..min(len,300) (+ one-byte-at-a-time for the shortest), result (spectrum or error) must equal the one-slice result; read fault at every offset < 300 plus 24 sampled offsets, the last byte and end-of-data, each as a persistent and as a one-off fault: if the error was returned, creation must fail; non-trivial = a first chunk shorter than the container's detection window, or a fault that reached the consumer",
             cases: ctx.tier.pick(64, 1500),
             strategy: Box::new(|| cs_case_strategy().boxed()),
             eval: Box::new(eval_cs),
         }),
         Box::new(RandomPart {
             name: "short-writes-and-write-faults",
-            rule: "write::Builder::write (text and npy; one case in thirteen has 1 025..20 000 values, i.e. output above 8 KiB / 64 KiB) into a writer accepting 1..7 (or 1000 / 4096 / 65 535) bytes per call: identical bytes; the writer failing after o accepted bytes for EVERY offset o (large outputs: first and last 300 offsets, block edges, a stride): write must return Err",
+            rule: "write::Builder::write (text and npy; one case in thirteen has 1 025..20 000 values, i.e. output above 8 KiB / 64 KiB) into a writer accepting 1..7 (or 1000 / 4096 / 65 535) bytes per call: identical bytes; the writer failing after o accepted bytes for EVERY offset o (large outputs: first and last 300 offsets, block edges, a stride), once as a persistent fault and once as a transient one (a single failing call, later calls succeed again): write must return Err",
             cases: ctx.tier.pick(300, 4000),
             strategy: Box::new(|| write_strategy().boxed()),
             eval: Box::new(eval_write),
